@@ -179,6 +179,18 @@ def check_round(case, state):
                 "modulus/probability changed when only the phase network was changed")
         gen.set_net(state.rbm_ph, case["ph"])
 
+    # public aliases and the importance-sampling entry points the observables use
+    Za = state.compute_normalization(space).double()
+    require(close(Za, Z, 1e-12), "alias:compute_normalization", "compute_normalization() differs from normalization()")
+    ii = case["idx"]
+    jj = list(reversed(case["idx"]))
+    num = R.lib_to_c(state.importance_sampling_numerator(space[ii], space[jj]))
+    den = R.lib_to_c(state.importance_sampling_denominator(space[jj]))
+    wgt = R.lib_to_c(state.importance_sampling_weight(space[ii], space[jj]))
+    require(bool(torch.all((num - psi[ii]).abs() <= 1e-12 * psi[ii].abs())) and bool(torch.all((den - psi[jj]).abs() <= 1e-12 * psi[jj].abs())),
+            "importance-sampling:numerator/denominator", "importance_sampling_numerator/denominator are not psi(sigma') / psi(sigma)")
+    require(bool(torch.all((wgt - psi[ii] / psi[jj]).abs() <= 1e-9 * (psi[ii] / psi[jj]).abs())), "importance-sampling:weight",
+            "importance_sampling_weight(sigma', sigma) is not psi(sigma')/psi(sigma)")
     # call forms: sub-batch with repeats / any order, and the 1-D form
     idx = case["idx"]
     sub = space[idx]
